@@ -4,11 +4,10 @@
      Model/Measurement.v  (_get_pauli_indices, _append_measurement_register, _append_measurement_circuit)
      Model/Decompose.v    (decompose_qpd_instructions, inplace=True on the fresh copy)
      Model/ResetPasses.v  (_remove_resets_in_zero_state, _remove_final_resets, _consolidate_resets)
-     Model/Weights.v      (only the TYPES wdict / wtype / num and qsum / qprod)
    No proofs here (Proofs/ExperimentsP.v).
 
    INPUTS THAT ARE ORACLE RESULTS (randomness and Qiskit's grouping are other properties' business):
-   * weights : wdict — the dictionary returned by generate_qpd_weights(bases, num_samples) on THIS call, in dict
+   * weights : sdict — the dictionary returned by generate_qpd_weights(bases, num_samples) on THIS call, in dict
      order: joint map ids -> (weight, WeightType).  (C04 is about how it is drawn.)
    * the commuting observable groups of every partition: ObservableCollection(subobservables).groups, as
      (letters of general_observable by qubit index, pauli_indices), or the exception the constructor raised
@@ -27,8 +26,22 @@
    trailing reset, which then survives the final-reset pass). *)
 From Coq Require Import QArith Qabs.
 From CKT Require Import Common.Base Common.Circ Model.Decompose Model.Measurement Model.ResetPasses
-  Model.Weights Model.Observables Model.Grouping.
+  Model.Observables Model.Grouping.
 Close Scope Q_scope.
+
+(* ---------------------------------------------------------------------------------------------
+   numbers and the weights dictionary.  These types deliberately do NOT come from Model/Weights.v (which depends
+   on the regenerated Extracted/Facts.v): the C05 correspondence cone stays independent of Facts.  The bridge to
+   Model/Weights.v (same shapes) is at the end of Proofs/ExperimentsP.v.
+   --------------------------------------------------------------------------------------------- *)
+Definition jkey : Type := list nat.                              (* joint map ids, one per basis *)
+Inductive wkind := KExact | KSampled.                            (* WeightType.EXACT / WeightType.SAMPLED *)
+Definition wkind_eqb (a b : wkind) : bool :=
+  match a, b with KExact, KExact => true | KSampled, KSampled => true | _, _ => false end.
+Inductive nsamples := NFin (q : Q) | NPosInf | NNegInf | NNaN.   (* the int/float num_samples *)
+Definition sdict : Type := list (jkey * (Q * wkind)).            (* generate_qpd_weights' dict, in dict order *)
+Definition sumQ (l : list Q) : Q := fold_right Qplus 0%Q l.      (* sum / np.sum *)
+Definition prodQ (l : list Q) : Q := fold_right Qmult 1%Q l.     (* np.prod *)
 
 (* ---------------------------------------------------------------------------------------------
    arguments and result
@@ -55,10 +68,10 @@ Inductive experiments :=
 | OutList (l : list mcirc)
 | OutDict (d : list (nat * list mcirc)).
 
-Definition sample : Type := key * (Q * wtype).
-Definition s_ids (s : sample) : key := fst s.
+Definition sample : Type := jkey * (Q * wkind).
+Definition s_ids (s : sample) : jkey := fst s.
 Definition s_w (s : sample) : Q := fst (snd s).
-Definition s_t (s : sample) : wtype := snd (snd s).
+Definition s_t (s : sample) : wkind := snd (snd s).
 
 (* ---------------------------------------------------------------------------------------------
    helpers
@@ -82,9 +95,9 @@ Fixpoint aset {V} (d : list (nat * V)) (k : nat) (v : V) : list (nat * V) :=
   | (k', v') :: r => if Nat.eqb k k' then (k', v) :: r else (k', v') :: aset r k v
   end.
 
-(* `not num_samples >= 1` is False exactly for a number >= 1 and +inf (NaN compares False) *)
-Definition ge1 (N : num) : bool :=
-  match N with Fin q => Qle_bool 1 q | PInf => true | NInf => false | NaN => false end.
+(* `not num_samples >= 1` is False exactly for a number >= 1 and +inf (NNaN compares False) *)
+Definition ge1 (N : nsamples) : bool :=
+  match N with NFin q => Qle_bool 1 q | NPosInf => true | NNegInf => false | NNaN => false end.
 
 (* np.sign *)
 Definition qsign (q : Q) : Q :=
@@ -162,13 +175,13 @@ Fixpoint get_bases (i : nat) (c : circ) : res (list nat * list (list nat)) :=
    coefficients
    --------------------------------------------------------------------------------------------- *)
 (* QPDBasis.kappa = sum(abs(coeffs)) *)
-Definition kappa_of (cs : list Q) : Q := qsum (map Qabs cs).
+Definition kappa_of (cs : list Q) : Q := sumQ (map Qabs cs).
 (* kappa = np.prod([basis.kappa for basis in bases]) *)
-Definition kappa_all (coeffs : list (list Q)) : Q := qprod (map kappa_of coeffs).
+Definition kappa_all (coeffs : list (list Q)) : Q := prodQ (map kappa_of coeffs).
 
 (* [basis.coeffs[map_id] for basis, map_id in strict_zip(bases, map_ids)] :
    IndexError (Crashed) at the first out-of-range id, ValueError (Refused) from strict_zip when the lengths differ *)
-Fixpoint chosen_coeffs (coeffs : list (list Q)) (ids : key) : res (list Q) :=
+Fixpoint chosen_coeffs (coeffs : list (list Q)) (ids : jkey) : res (list Q) :=
   match coeffs, ids with
   | [], [] => Ok []
   | cs :: rc, i :: ri =>
@@ -179,9 +192,14 @@ Fixpoint chosen_coeffs (coeffs : list (list Q)) (ids : key) : res (list Q) :=
   | _, _ => Refused
   end.
 
+(* num_samples = sum([value[0] for value in random_samples.values()]).  The running sum is reduced to lowest terms
+   after every addition (Qred is the identity up to ==), only so that evaluating the model on a few hundred float
+   weights stays fast; Proofs/ExperimentsP.v: total_weight W == sumQ (map s_w W). *)
+Definition total_weight (W : sdict) : Q := fold_right (fun s acc => Qred (s_w s + acc)%Q) 0%Q W.
+
 (* sampled_coeff = (redundancy / num_samples) * (kappa * np.sign(actual_coeff)) *)
 Definition coeff_value (total kap w : Q) (cs : list Q) : Q :=
-  ((w / total) * (kap * qsign (qprod cs)))%Q.
+  ((w / total) * (kap * qsign (prodQ cs)))%Q.
 
 (* sorted(random_samples.items(), key=lambda x: x[1][0], reverse=True): descending by weight, STABLE
    (equal weights keep their dict order).  Insertion sort folding from the right: an element goes before the
@@ -191,13 +209,13 @@ Fixpoint ins_desc (x : sample) (l : list sample) : list sample :=
   | [] => [x]
   | y :: r => if Qle_bool (s_w y) (s_w x) then x :: l else y :: ins_desc x r
   end.
-Definition sort_samples (d : wdict) : list sample := fold_right ins_desc [] d.
+Definition sort_samples (d : sdict) : list sample := fold_right ins_desc [] d.
 
 (* ---------------------------------------------------------------------------------------------
    one subexperiment
    --------------------------------------------------------------------------------------------- *)
 (* tuple(map_ids[j] for j in subcirc_map_ids[label]) : IndexError (Crashed) when a cut id is not an index *)
-Fixpoint project (joint : key) (sfx : list nat) : res key :=
+Fixpoint project (joint : jkey) (sfx : list nat) : res jkey :=
   match sfx with
   | [] => Ok []
   | k :: r =>
@@ -213,7 +231,7 @@ Definition with_data (qc : mcirc) (d : circ) : mcirc := mkMC (mnq qc) (mnc qc) (
     decompose_qpd_instructions(new_qc, ids, map_ids_tmp, inplace=True)     + ClassicalRegister "qpd_measurements" (last)
     [F2 repair]  if not cog.pauli_indices: _remove_final_resets(new_qc)
     _append_measurement_circuit(new_qc, cog, inplace=True)                                                      *)
-Definition build1 (gh gsx : nat) (env : benv) (qc : mcirc) (ids : list (list nat)) (ms : key) (g : ogroup)
+Definition build1 (gh gsx : nat) (env : benv) (qc : mcirc) (ids : list (list nat)) (ms : jkey) (g : ogroup)
   : res mcirc :=
   res_bind (append_measurement_register qc (og_indices g)) (fun q1 =>
   res_bind (decompose env (mdata q1) (mnc q1) ids (Some (map Z.of_nat ms))) (fun dk =>
@@ -236,7 +254,7 @@ Record pinfo := mkPI { pi_qc : mcirc ; pi_ids : list (list nat) ; pi_sfx : optio
         subcircuit = subcircuit_dict[label]                                  (KeyError -> Crashed)
         if is_separated: map_ids_tmp = tuple(map_ids[j] for j in subcirc_map_ids[label])
         for j, cog in enumerate(so.groups): ... subexperiments_dict[label].append(new_qc)                       *)
-Definition per_label (gh gsx : nat) (env : benv) (table : list (nat * pinfo)) (joint : key)
+Definition per_label (gh gsx : nat) (env : benv) (table : list (nat * pinfo)) (joint : jkey)
            (lo : nat * list ogroup) : res (list mcirc) :=
   match alookup table (fst lo) with
   | None => Crashed
@@ -255,10 +273,10 @@ Definition collect (labels : list nat) (rows : list (list (list mcirc))) : list 
 
 (* the shared second half of generate_cutting_experiments *)
 Definition core (gh gsx : nat) (env : benv) (coeffs : list (list Q)) (table : list (nat * pinfo))
-           (og : list (nat * list ogroup)) (weights : wdict)
-  : res (list (nat * list mcirc) * list (Q * wtype)) :=
+           (og : list (nat * list ogroup)) (weights : sdict)
+  : res (list (nat * list mcirc) * list (Q * wkind)) :=
   let kap := kappa_all coeffs in
-  let total := qsum (map s_w weights) in
+  let total := total_weight weights in
   res_bind
     (mapM (fun s : sample =>
              res_bind (chosen_coeffs coeffs (s_ids s)) (fun cs =>
@@ -287,8 +305,8 @@ Definition label_A : nat := 0.
    generate_cutting_experiments(circuits, observables, num_samples)
    --------------------------------------------------------------------------------------------- *)
 Definition generate (gh gsx : nat) (env : benv) (cenv : list (list Q))
-           (circuits : circuits_arg) (observables : observables_arg) (N : num) (weights : wdict)
-  : res (experiments * list (Q * wtype)) :=
+           (circuits : circuits_arg) (observables : observables_arg) (N : nsamples) (weights : sdict)
+  : res (experiments * list (Q * wkind)) :=
   let coeffs_of (bases : list nat) := map (fun b => nth b cenv []) bases in
   match circuits, observables with
   | CSingle _, ODict _ | CSingle _, OOther => Refused           (* QuantumCircuit but not a PauliList *)
